@@ -13,6 +13,7 @@ func init() {
 			"PV-FRESH JSON path stack; the key encoders are a pure function of the label set (no per-process seed)",
 			"label_format applies its renames in written order (a list, not a map); one label set has one stream key",
 			"PV-API Docker labels are stored one by one under KeyToLabel(key); render order (C15)",
+			"PV-CMP comparators are not differences",
 		},
 		NotDecided: []string{"the race detector's dynamic view", "ties in unstable sorts (the property excludes equal timestamps)", "64-bit hash collisions", "map stores inside a region are assumed to hit distinct keys (commutative)"},
 		Rules: func(r *Run) {
@@ -29,6 +30,7 @@ func init() {
 			ruleLabelSetString(r) // one label set has one stream key (names ordered by a total order)
 			ruleSanitiserSites(r) // two Docker labels are never merged into one map key by iteration order
 			ruleRender(r)
+			ruleComparatorsNoSubtraction(r, []string{cmdPkg, enginePkg, metricPkg, dockerlogPkg})
 		},
 	})
 }
